@@ -68,6 +68,8 @@ func setup(rnd *choice.Src) (*world, error) {
 	w.kmacKey, w.kmacSize = rnd.Bytes(16), 32+rnd.Intn(100)
 	w.rawKmac, err = hash.NewKMAC_128(w.kmacKey, []byte("custom"), w.kmacSize)
 	must(err)
+	// the shared instance has pending Write data: ComputeHash must neither use nor disturb it
+	_, _ = w.rawKmac.Write([]byte("pending data written before the concurrent run"))
 	nk := 3
 	for i := 0; i < 4; i++ {
 		w.msgs = append(w.msgs, rnd.Bytes(1+rnd.Intn(200)))
@@ -142,6 +144,7 @@ func (a *world) fresh() (w *world, err error) {
 	w.kmac = crypto.NewExpandMsgXOFKMAC128("roconc-tag")
 	w.rawKmac, err = hash.NewKMAC_128(a.kmacKey, []byte("custom"), a.kmacSize)
 	must(err)
+	_, _ = w.rawKmac.Write([]byte("pending data written before the concurrent run"))
 	for _, m := range a.msgs {
 		w.msgs = append(w.msgs, cp(m))
 	}
